@@ -1437,3 +1437,54 @@ Proof.
 Qed.
 
 Print Assumptions first_declaration_wins.
+
+(** C16 with the hypotheses of its text (the constant names need not be duplicate-free). *)
+Corollary run_reorder_no_duplicate_names : forall p p' out,
+  NoDup (struct_names p) -> NoDup (const_names p) -> NoDup (fn_names p) ->
+  Permutation p p' -> filter is_const p = filter is_const p' ->
+  run p = ROk out ->
+  exists out', run p' = ROk out' /\ C16_statement p p' out out'.
+Proof. intros p p' out Hs _ Hf. apply run_reorder; assumption. Qed.
+
+(** * The specification, read back: [spec_types] is the first struct declaration of each name,
+    in source order. *)
+Fixpoint first_occs {V : Type} (l : list (string * V)) : list (string * V) :=
+  match l with
+  | [] => []
+  | (k, v) :: l' => (k, v) :: filter (fun kv => negb (String.eqb (fst kv) k)) (first_occs l')
+  end.
+
+Lemma filter_filter_and {A} (f g : A -> bool) (l : list A) :
+  filter f (filter g l) = filter (fun x => f x && g x) l.
+Proof.
+  induction l as [|a l IH]; cbn; [reflexivity|].
+  destruct (g a); cbn; [destruct (f a); cbn; rewrite IH; reflexivity|].
+  rewrite Bool.andb_false_r. exact IH.
+Qed.
+
+Lemma pass1_first_occs : forall p seen,
+  types_of (registered (pass1 seen p)) =
+  filter (fun kv => negb (smem (fst kv) seen)) (first_occs (struct_decls p)).
+Proof.
+  induction p as [|t p IH]; intro seen; [reflexivity|].
+  destruct t as [path | n a | n ty v | f]; cbn [pass1]; try apply IH.
+  change (struct_decls (TStructDecl n a :: p))
+    with ((iname n, struct_of_decl n a) :: struct_decls p).
+  cbn [first_occs filter fst]. rewrite filter_filter_and.
+  destruct (smem (iname n) seen) eqn:Hs; cbn [negb].
+  - cbn. rewrite IH. apply filter_ext. intros [k v]. cbn [fst].
+    destruct (String.eqb k (iname n)) eqn:E; cbn [negb]; [|rewrite Bool.andb_true_r; reflexivity].
+    apply String.eqb_eq in E. subst k. rewrite Hs. reflexivity.
+  - cbn. f_equal. rewrite IH. apply filter_ext. intros [k v]. cbn [fst smem].
+    destruct (String.eqb k (iname n)); cbn [negb];
+      [rewrite Bool.andb_false_r | rewrite Bool.andb_true_r]; reflexivity.
+Qed.
+
+Theorem spec_types_first_declarations p : spec_types p = first_occs (struct_decls p).
+Proof.
+  unfold spec_types, spec_pass1. rewrite pass1_first_occs. cbn [smem negb].
+  induction (first_occs (struct_decls p)) as [|a l IH]; cbn; [reflexivity | rewrite IH; reflexivity].
+Qed.
+
+Print Assumptions run_reorder_no_duplicate_names.
+Print Assumptions spec_types_first_declarations.
